@@ -254,7 +254,7 @@ theorem QG_handle (env : Env K) (child : Child) (s : St K) (ev : Ev) (g : QG s) 
     · exact g
   | data d =>
     simp only [handle]
-    have g' : QG ({ s with inbound := s.inbound ++ d } : St K) := QG_congr' g rfl
+    have g' : QG s := g
     split
     · exact QG_hsData _ _ _ _ g'
     · exact QG_receiveData _ _ _ g'
@@ -915,5 +915,50 @@ theorem TGc_run {L : Laws K} (env : Env K) (child : Child) (hfresh : ∀ c, env.
 
 theorem TG_init (L : Laws K) (sd : Side) : TG L true [] [] ({ side := sd } : St K) := by
   refine ⟨fun _ => ⟨fun _ => rfl, fun _ => rfl, rfl, rfl, rfl, rfl⟩, fun c hc => by simp at hc⟩
+
+/-! ### the command list only grows -/
+
+theorem up_interact (s : St K) : ∃ more, (interact s).up = s.up ++ more := by
+  unfold interact
+  split
+  · exact ⟨[], by simp⟩
+  · exact ⟨_, rfl⟩
+
+theorem up_handleCmd (s : St K) (c : CCmd) : ∃ more, (handleCmd s c).up = s.up ++ more := by
+  cases c with
+  | send d =>
+    simp only [handleCmd]
+    split
+    · exact ⟨[], by simp⟩
+    · exact up_interact _
+  | close => exact ⟨_, rfl⟩
+  | open_ => exact ⟨_, rfl⟩
+  | other n => exact ⟨_, rfl⟩
+
+theorem up_handleCmds (cs : List CCmd) : ∀ s : St K, ∃ more, (handleCmds s cs).up = s.up ++ more := by
+  induction cs with
+  | nil => intro s; exact ⟨[], by simp [handleCmds]⟩
+  | cons c cs ih =>
+    intro s
+    obtain ⟨m1, h1⟩ := up_handleCmd s c
+    obtain ⟨m2, h2⟩ := ih (handleCmd s c)
+    exact ⟨m1 ++ m2, by simp only [handleCmds, List.foldl_cons] at *; rw [h2, h1]; simp⟩
+
+theorem up_etcCore (child : Child) (s : St K) (e : CEv) : ∃ more, (etcCore child s e).up = s.up ++ more := by
+  unfold etcCore
+  split
+  · exact ⟨[], by simp⟩
+  · split
+    · exact ⟨[], by simp⟩
+    · unfold deliver; exact up_handleCmds _ _
+
+theorem up_foldl_etcCore (child : Child) (q : List CEv) : ∀ t : St K, ∃ more, (q.foldl (etcCore child) t).up = t.up ++ more := by
+  induction q with
+  | nil => intro t; exact ⟨[], by simp⟩
+  | cons e q ih =>
+    intro t
+    obtain ⟨m1, h1⟩ := up_etcCore child t e
+    obtain ⟨m2, h2⟩ := ih (etcCore child t e)
+    exact ⟨m1 ++ m2, by simp only [List.foldl_cons]; rw [h2, h1]; simp⟩
 
 end MitmVerif.C14.Hist
